@@ -16,10 +16,11 @@ CONSTANTS BaseMod
 
 Places == {"header", "between-blocks", "after-expressions-header", "inside-expressions", "trailing", "end-of-file",
            "blank-inside-expressions", "indent", "crlf", "continuation", "trailing-spaces", "tabs", "no-final-newline",
-           "unit-annotation", "two-comments"}
+           "unit-annotation", "two-comments", "after-header-and-inside", "header-and-trailing"}
 \* index into the harness' table of comment strings (plain words, unit names, "1/0", "9**9**9", "x = 3", quotes, ...)
 NStrings == 36
-NeedsString(p) == p \in {"header", "between-blocks", "after-expressions-header", "inside-expressions", "trailing", "end-of-file", "two-comments"}
+NeedsString(p) == p \in {"header", "between-blocks", "after-expressions-header", "inside-expressions", "trailing", "end-of-file", "two-comments",
+                          "after-header-and-inside", "header-and-trailing"}
 
 VARIABLES deco
 dvars == <<vars, deco>>
@@ -32,6 +33,9 @@ LinesOf(bs, b) == IF b > Len(bs) THEN <<>> ELSE
 Decorated(ls, d) ==
   CASE d.place \in {"header"} -> <<Line("comment", 0, d.str)>> \o ls
     [] d.place \in {"end-of-file"} -> ls \o <<Line("comment", 0, d.str)>>
+    [] d.place \in {"after-header-and-inside", "header-and-trailing"} ->     \* two decorations at once
+         LET at == IF Len(ls) > 2 THEN 1 + (d.str % (Len(ls) - 1)) ELSE 1
+         IN <<Line("comment", 0, d.str)>> \o SubSeq(ls, 1, at) \o <<Line("comment", 0, d.str)>> \o SubSeq(ls, at + 1, Len(ls))
     [] d.place \in {"between-blocks", "after-expressions-header", "inside-expressions", "two-comments", "blank-inside-expressions"} ->
          LET at == IF Len(ls) > 2 THEN 1 + (d.str % (Len(ls) - 1)) ELSE 1
          IN SubSeq(ls, 1, at) \o <<Line(IF d.place = "blank-inside-expressions" THEN "blank" ELSE "comment", 0, d.str)>> \o SubSeq(ls, at + 1, Len(ls))
